@@ -141,9 +141,14 @@ fn build_chunks(cs: &[(Option<(u16, bool)>, Vec<u8>)]) -> Vec<u8> {
     v
 }
 
-fn crafted(rng: &mut Rng, token: [u8; 4], seq: u16) -> Vec<u8> {
+fn crafted(rng: &mut Rng, token: [u8; 4], seq: u16, ackh: u16) -> Vec<u8> {
     let token = px::Token(token);
-    let ack = if rng.chance(1, 2) { 0 } else { rng.below(1024) as u16 };
+    // "tempting" ack: the sequence number of the victim's newest unacknowledged chunk
+    let ack = match rng.below(4) {
+        0 => 0,
+        1 => rng.below(1024) as u16,
+        _ => ackh,
+    };
     let reason: Vec<u8> = (0..rng.below(6)).map(|_| 1 + rng.below(255) as u8).collect();
     let rt = px::Token([1 + rng.below(200) as u8, rng.next() as u8, rng.next() as u8, rng.next() as u8]);
     let chunk_payload;
@@ -187,6 +192,7 @@ fn own_token(g: &Gen, to: usize) -> Option<[u8; 4]> {
 fn foreign(g: &mut Gen, to: usize) -> Vec<u8> {
     let agreed = own_token(g, to);
     let seq = ((g.w.eps[to].del_vital.len() + 1) % 1024) as u16;
+    let ackh = (g.w.eps[to].sub_vital.len() % 1024) as u16;
     let mode = g.rng.below(10);
     let genuine: Option<Vec<u8>> = {
         let h = &g.w.eps[1 - to].hist;
@@ -214,7 +220,7 @@ fn foreign(g: &mut Gen, to: usize) -> Vec<u8> {
                 (_, 3) => [0; 4],
                 _ => [g.rng.next() as u8, g.rng.next() as u8, g.rng.next() as u8, g.rng.next() as u8],
             };
-            crafted(&mut g.rng, tok, seq)
+            crafted(&mut g.rng, tok, seq, ackh)
         }
         5 | 6 => match genuine {
             // genuine datagram of the peer with one bit of its header token flipped, or truncated
@@ -228,7 +234,7 @@ fn foreign(g: &mut Gen, to: usize) -> Vec<u8> {
                 }
                 b
             }
-            _ => crafted(&mut g.rng, [0xff; 4], seq),
+            _ => crafted(&mut g.rng, [0xff; 4], seq, ackh),
         },
         7 => {
             if g.rng.chance(1, 2) {
